@@ -133,6 +133,12 @@ func readCSVToUDLChan(in io.Reader, cudL chan updownLine, cErr chan error, cRead
 		cudL <- udL
 	}
 
+	// not even a header line: this is not the output of gofasta updown list
+	if header {
+		cErr <- errors.New("empty --target csv: is this the output of gofasta updown list?")
+		return
+	}
+
 	cReadDone <- true
 }
 
@@ -199,6 +205,11 @@ func readCSVToUDLList(in io.Reader) ([]updownLine, error) {
 
 		LudL = append(LudL, udL)
 		counter++
+	}
+
+	// no queries at all (an empty file, or only the header line)
+	if counter == 0 {
+		return make([]updownLine, 0), errors.New("empty --query csv: is this file the output of gofasta updown list?")
 	}
 
 	return LudL, nil
